@@ -77,6 +77,11 @@
 
 #![no_std]
 extern crate alloc;
+#[cfg(feature = "verif-hooks")]
+extern crate std;
+#[cfg(feature = "verif-hooks")]
+#[doc(hidden)]
+pub mod verif_hooks;
 
 mod decodation;
 mod encodation;
